@@ -76,6 +76,9 @@ type EncSpec struct {
 	// InContext: the plaintext is the assertion's exact octets as they stand inside the plaintext twin of the Response
 	// (namespace prefixes declared on the Response are not repeated), not a self-contained fragment.
 	InContext bool
+	// RetrievalURI / RetrievalType override the RetrievalMethod that points at a detached EncryptedKey
+	// (default URI "#ek", no Type); EKId, when set, is written as Id attribute on the EncryptedKey.
+	RetrievalURI, RetrievalType, EKId *string
 }
 
 func (e *EncSpec) String() string {
@@ -221,7 +224,11 @@ func encryptedKeyXML(spec *EncSpec, keyB64 string) string {
 		xdecl, ddecl = ` xmlns:xenc="`+NSXENC+`"`, ` xmlns:ds="`+NSDS+`"`
 	}
 	var ek strings.Builder
-	ek.WriteString(`<` + x + `EncryptedKey` + xdecl + `>`)
+	ek.WriteString(`<` + x + `EncryptedKey` + xdecl)
+	if spec.EKId != nil {
+		ek.WriteString(` Id="` + attrEsc(*spec.EKId) + `"`)
+	}
+	ek.WriteString(`>`)
 	ek.WriteString(`<` + x + `EncryptionMethod Algorithm="` + spec.KeyAlg + `"`)
 	if spec.Digest != nil {
 		ek.WriteString(`><` + d + `DigestMethod` + ddecl + ` Algorithm="` + *spec.Digest + `"/></` + x + `EncryptionMethod>`)
@@ -259,7 +266,14 @@ func EncryptedAssertionRaw(spec *EncSpec, dataB64, keyB64 string) string {
 	if !spec.Detached {
 		b.WriteString(`<` + d + `KeyInfo` + ddecl + `>` + ek + `</` + d + `KeyInfo>`)
 	} else {
-		b.WriteString(`<` + d + `KeyInfo` + ddecl + `><` + d + `RetrievalMethod URI="#ek"/>` + spec.extraXML + `</` + d + `KeyInfo>`)
+		uri, typ := "#ek", ""
+		if spec.RetrievalURI != nil {
+			uri = *spec.RetrievalURI
+		}
+		if spec.RetrievalType != nil {
+			typ = ` Type="` + attrEsc(*spec.RetrievalType) + `"`
+		}
+		b.WriteString(`<` + d + `KeyInfo` + ddecl + `><` + d + `RetrievalMethod` + typ + ` URI="` + attrEsc(uri) + `"/>` + spec.extraXML + `</` + d + `KeyInfo>`)
 	}
 	b.WriteString(`<` + x + `CipherData><` + x + `CipherValue>` + dataB64 + `</` + x + `CipherValue></` + x + `CipherData>`)
 	b.WriteString(`</` + x + `EncryptedData>`)
@@ -283,4 +297,8 @@ func EncryptCBCRaw(key, raw []byte) []byte {
 	out := make([]byte, len(raw))
 	cipher.NewCBCEncrypter(blk, iv).CryptBlocks(out, raw)
 	return append(iv, out...)
+}
+
+func attrEsc(v string) string {
+	return strings.NewReplacer("&", "&amp;", "<", "&lt;", `"`, "&quot;", "\t", "&#9;", "\n", "&#10;", "\r", "&#13;").Replace(v)
 }
